@@ -2292,6 +2292,12 @@ copyOneHeaderFromClientsideRequestToUpstreamRequest(const HttpHeaderEntry *e, co
 
             if (hops > 0)
                 hdr_out->putInt64(Http::HdrType::MAX_FORWARDS, hops - 1);
+            else if (hops < 0 && e->value.size() > 18 &&
+                     strspn(e->value.termedBuf(), "0123456789") == e->value.size()) {
+                // a valid 1*DIGIT value that does not fit into int64_t: RFC 9110 section
+                // 7.6.2 lets us forward our own maximum instead of value-1
+                hdr_out->putInt64(Http::HdrType::MAX_FORWARDS, INT64_MAX);
+            }
         }
 
         break;
